@@ -38,6 +38,11 @@ class SimManagerClosed(ConnectionRefusedError):
     pass
 
 
+class SimUnsupported(Exception):
+    """The code under test asked the simulated environment for something it does not model.  This is a
+    limit of the harness, never a verdict about the code: the run ends as a harness error."""
+
+
 # ----------------------------------------------------------------------------------------
 
 class SimManager(_KernelObject):
@@ -69,6 +74,24 @@ class SimManager(_KernelObject):
     def _check(self):
         if self.closed:
             raise SimManagerClosed("manager has been shut down")
+
+    # proxies of synchronisation objects behave like the plain ones, one request at a time
+    def Lock(self):
+        return SimLock(self.k, f"{self.name}.lock{len(self.objects)}")
+
+    def RLock(self):
+        return SimRLock(self.k, f"{self.name}.rlock{len(self.objects)}")
+
+    def Event(self):
+        return SimEvent(self.k, f"{self.name}.event{len(self.objects)}")
+
+    def Value(self, typecode, value, lock=True):
+        return SimValue(self.k, typecode, value, f"{self.name}.value{len(self.objects)}")
+
+    def __getattr__(self, name):
+        if name.startswith("__"):
+            raise AttributeError(name)
+        raise SimUnsupported(f"the simulated manager has no '{name}'")
 
 
 class SimManagerQueue(_KernelObject):
@@ -701,6 +724,11 @@ class SimContext:
 
     def get_context(self, method=None):
         return self
+
+    def __getattr__(self, name):
+        if name.startswith("__"):
+            raise AttributeError(name)
+        raise SimUnsupported(f"the simulated multiprocessing context has no '{name}'")
 
     def cpu_count(self):
         return 4
